@@ -147,7 +147,9 @@ int main(int argc, char **argv) {
         vh::Rng r = vh::caseRng(a.seed, k);
         bool generic = r.coin(1, 2);
         bool lee = r.coin(4, 5);
-        double penalty = (double) std::vector<int>{0, 0, 5, 50}[r.range(0, 3)];
+        // segment penalty: 0 (two-sided certified comparison), integers, and fractional values (a search that
+        // rounds the per-bend charge would only show on those)
+        double penalty = std::vector<double>{0, 0, 0, 0, 5, 50, 0.5, 1.5, 2.75, 11.5}[r.range(0, 9)];
         // IgnoreRegions (default true) prunes visibility edges that no *Euclidean* shortest path uses; with a
         // bend penalty such edges can be part of the optimum, so penalty > 0 is run with both settings
         bool ignoreRegions = (penalty == 0) ? r.coin(3, 4) : r.coin(1, 2);
@@ -187,7 +189,7 @@ int main(int argc, char **argv) {
         int nb = (int) r.range(2, 4);
         bool column = r.coin();             // boxes stacked along y (shared x line) instead of along x
         bool lowSide = r.coin();            // shared line is the low (min) side of the boxes, else the high side
-        double penalty = (double) std::vector<int>{0, 0, 5, 50}[r.range(0, 3)];
+        double penalty = std::vector<double>{0, 0, 0, 5, 50, 1.5, 11.5}[r.range(0, 6)];
         bool ignoreRegions = r.coin(4, 5);
         long U = r.range(1, 3);             // scale
         long line = r.range(0, 6);
@@ -217,6 +219,46 @@ int main(int argc, char **argv) {
             ConnSpec c2 = cn; c2.id = 102; std::swap(c2.sx, c2.dx); std::swap(c2.sy, c2.dy); cs.push_back(c2);
         }
         runCase(k, penalty > 0 ? "aligned-sides-pen" : "aligned-sides", s, cs, true, penalty, ignoreRegions);
+    }
+    // ---- fractional-onebox class (strict): one rectangle, two competing routes: over the box with 1 bend
+    //      (length L1) and under it with 2 bends (length L2 < L1); the box bottom is tuned so that
+    //      floor(p) < L1 - L2 < p for a fractional segment penalty p, i.e. the 1-bend route is the optimum
+    //      of length + p*bends while the 2-bend route would win with the per-bend charge rounded down.
+    long nfr = (thorough ? 100 : 30) * a.scale;
+    for (long c = 0; c < nfr; ++c, ++k) {
+        if (!a.want(k)) continue;
+        vh::Rng r = vh::caseRng(a.seed, k, 13);
+        double pen = std::vector<double>{0.5, 0.9, 1.5, 2.75, 11.5}[r.range(0, 4)];
+        double fl = std::floor(pen), fr = pen - fl;
+        bool found = false;
+        double bx0 = 0, bx1 = 0, T = 0, B = 0, dx = 0, dy = 0;
+        for (int tries = 0; tries < 200 && !found; ++tries) {
+            bx0 = (double) r.range(20, 60); bx1 = bx0 + (double) r.range(10, 40); T = (double) r.range(15, 70);
+            dx = bx1 + (double) r.range(60, 160); dy = T + (double) r.range(5, 25);
+            double L1 = std::hypot(bx0, T) + std::hypot(dx - bx0, dy - T);
+            std::vector<double> ok;
+            for (int q = 1; q < 1600; ++q) {
+                double b = -q / 8.0;
+                double L2 = std::hypot(bx0, b) + (bx1 - bx0) + std::hypot(dx - bx1, dy - b);
+                double d = L1 - L2;
+                if (d > fl + 0.15 * fr && d < pen - 0.15 * fr) ok.push_back(b);
+                if (d < fl) break;
+            }
+            if (!ok.empty()) { B = r.pick(ok); found = true; }
+        }
+        if (!found) { vh::beginCase(k, "empty"); vh::endCase(); continue; }
+        bool mx = r.coin(), my = r.coin(), tr = r.coin();
+        auto X = [&](double x, double y, double &ox, double &oy) { if (mx) x = -x; if (my) y = -y; if (tr) std::swap(x, y); ox = x; oy = y; };
+        double x0, y0, x1, y1; X(bx0, B, x0, y0); X(bx1, T, x1, y1);
+        vs::Scene s; s.W = 300; s.H = 300;
+        vs::DPoly box;      // counter-clockwise, Avoid::Rectangle vertex order
+        double lx = std::min(x0, x1), hx = std::max(x0, x1), ly = std::min(y0, y1), hy = std::max(y0, y1);
+        box.push_back(Point(hx, ly)); box.push_back(Point(hx, hy)); box.push_back(Point(lx, hy)); box.push_back(Point(lx, ly));
+        s.shapes.push_back(box); s.isRect.push_back(true);
+        ConnSpec cn; cn.id = 101; X(0, 0, cn.sx, cn.sy); X(dx, dy, cn.dx, cn.dy);
+        if (r.coin()) { std::swap(cn.sx, cn.dx); std::swap(cn.sy, cn.dy); }
+        std::vector<ConnSpec> cs; cs.push_back(cn);
+        runCase(k, "fractional-onebox", s, cs, true, pen, r.coin(3, 4));
     }
     return 0;
 }
